@@ -166,6 +166,9 @@ def rule_F3(ctx, R):
             continue
         if "ACQ-SCOPED" in R.roles(f):
             continue   # scoped calls hand the PoisonResult to the closure; it is built by data_mut/data_ref, judged themselves
+        if not any((x["k"] == "adt" and (x["path"] == PERR or x["path"].endswith("TryLockPoisonableError"))) or x["k"] == "alias"
+                   for x in ty_walk(f["output"])):
+            continue   # reports the flag without producing a guard or data reference (is_poisoned-like accessors, Debug)
         paths, err, I = ctx.paths(f, inline_assume_of=(POIS,))
         if err:
             res.undecided(f["path"], "analysis", err, *_floc(f))
@@ -639,7 +642,7 @@ def rule_H1(ctx, R):
                 elif not any(e["k"] == "MEMDROP" and e.get("val") == fr[0]["result"] for e in p.events) and \
                         not any(e["k"] == "DROPQ" and e.get("val") == fr[0]["result"] for e in p.events):
                     bad = "the re-created Box is not dropped"
-                if any(not holds_no_user_value(e.get("ty")) for e in p.ev("FORGET")):
+                if any(not holds_no_user_value(e.get("ty"), ctx.F) for e in p.ev("FORGET")):
                     bad = "Drop forgets a value"
         if bad:
             res.bad(Violation("H1", dropfn["path"], "drop", bad, *_floc(dropfn)))
@@ -657,7 +660,7 @@ def rule_H1(ctx, R):
             if p.kind != "ret":
                 continue
             fr = [e for e in _calls(p) if e["def"].endswith("from_raw")]
-            fg = [e for e in p.ev("FORGET") if not holds_no_user_value(e.get("ty"))]
+            fg = [e for e in p.ev("FORGET") if (e["val"][0] == "op" and e["val"][1] == "a1") or not holds_no_user_value(e.get("ty"), ctx.F)]
             dip = [e for e in _calls(p) if e["def"].endswith("drop_in_place")]
             if len(fr) != 1 or vid(fr[0]["argv"][0]) != "op:a1.0":
                 bad = "%d from_raw on %s" % (len(fr), [vid(e["argv"][0]) for e in fr])
@@ -702,7 +705,7 @@ def rule_H1(ctx, R):
             if p.value[3] == 0 and lk:
                 if len(fr) != 1:
                     bad = "rejecting path frees the heap cell %d times (collection forgotten or double-dropped)" % len(fr)
-                if any(not holds_no_user_value(e.get("ty")) for e in p.ev("FORGET")):
+                if any(not holds_no_user_value(e.get("ty"), ctx.F) for e in p.ev("FORGET")):
                     bad = "rejecting path forgets the collection: the user's data is leaked, never dropped"
             if p.value[3] == 1 and fr:
                 bad = "accepting path frees the heap cell it returns"
@@ -734,7 +737,7 @@ def rule_H2(ctx, R):
             if t["callee"]["def"].startswith("<std::mem::ManuallyDrop<T> as std::ops::Deref"):
                 st_ = t["callee"].get("impl_self") or {}
                 targ = next((a for a in st_.get("args", []) if a.get("k") not in ("region", "const")), targ)
-            if holds_no_user_value(targ):
+            if holds_no_user_value(targ, ctx.F):
                 res.ok("forget of %s in %s (owns no user value)" % (targ["s"], top["path"]))
                 continue
         res.bad(Violation("H2", top["path"], "primitive:" + t["callee"]["def"].split("::")[-1], "%s used in %s: values may be leaked or "
